@@ -442,7 +442,11 @@ impl NodeEnv {
 
         let membership = Arc::new(RaftMembership::<ET>::verif_new(self.id, self.initial.clone(), base_config()));
         let role = if self.learner {
-            RaftRole::Learner(Box::new(LearnerState::new(self.id, cfg.clone())))
+            RaftRole::Learner(Box::new(LearnerState::new_with_hard_state(
+                self.id,
+                cfg.clone(),
+                d_engine_core::RaftLog::load_hard_state(&log).expect("load hard state"),
+            )))
         } else {
             RaftRole::Follower(Box::new(FollowerState::new(
                 self.id,
